@@ -43,6 +43,7 @@ class Unit:
         self.vcpath = None
         self.outside = []      # raw Rust emitted after the verus! block (Display impls etc.)
         self.included = set()
+        self.mutself = set()   # R15b: by-value `self` / `mut self` receivers rebound to a mutable local
         self.sqlmap = {}       # (fnpath, ordinal) -> dict(stub, sha): R7
         self.sqlseen = []      # what R7 found: dict(fn, n, stub, sha, sql)
 
@@ -180,6 +181,8 @@ def parse_vc(path):
             if not m:
                 raise SystemExit("%s:%d: bad hint" % (path, ln))
             cur = dict(kind="hint", fn=m.group(1), where=m.group(2), anchor=m.group(3), nth=int(m.group(4) or 1), plus=int(m.group(5) or 0), line=ln)
+        elif d == "mutself":
+            u.mutself.add(parts[1])
         elif d == "sql":
             u.sqlmap[(parts[1], int(parts[2]))] = dict(stub=parts[3], sha=parts[4] if len(parts) > 4 else None, line=ln)
         elif d == "closure":
@@ -751,6 +754,34 @@ def rewrite_sql(u, fnpath, text, log):
         log.append(("R7", fnpath, "SQL #%d -> %s%s sha=%s%s" % (n, ent["stub"], suffix, sha, "" if ent["sha"] in (None, sha) else " (CHANGED since pinned %s)" % ent["sha"])))
 
 
+def rebind_self(text, log, where):
+    """R15b: `fn f(mut self, ..)` / `fn f(self, ..)` whose body mutates self -> `fn f(self, ..) { let mut verif_self = self; .. }`
+    with every later `self` token renamed (Verus rejects `mut self`; by-value self is immutable)."""
+    p = fn_parts(text)
+    toks = p["toks"]
+    i = p["params_open"] + 1
+    edits = []
+    if toks[i].text == "mut" and toks[i + 1].text == "self":
+        edits.append((toks[i].start, toks[i + 1].start, ""))
+    elif toks[i].text != "self":
+        return text
+    bo, bc = p["body_open"], p["body_close"]
+    for k in range(bo + 1, bc):
+        if toks[k].kind == "id" and toks[k].text == "self":
+            edits.append((toks[k].start, toks[k].end, "verif_self"))
+    ins = toks[bo].end
+    out = text
+    for (a, b, r) in sorted(edits, reverse=True):
+        if a >= ins:
+            out = out[:a] + r + out[b:]
+    out = out[:ins] + "\n        let mut verif_self = self;" + out[ins:]
+    for (a, b, r) in sorted(edits, reverse=True):
+        if a < ins:
+            out = out[:a] + r + out[b:]
+    log.append(("R15b", where, "by-value self rebound to mutable local verif_self"))
+    return out
+
+
 def annotate_closures(u, fnpath, text, log):
     """R13: give a closure an explicit Verus header (parameter types, requires/ensures); the body is
     kept verbatim (wrapped in a block when it is a bare expression)."""
@@ -813,6 +844,8 @@ def process_fn(u, fnpath, text, log, origin, canary=None):
         text = desugar_map_collect(text, log, fnpath)
     if u.sqlmap:
         text = rewrite_sql(u, fnpath, text, log)
+    if fnpath in u.mutself:
+        text = rebind_self(text, log, fnpath)
     if settings.get("letchains") == "nest":
         text = desugar_let_chains(text, log, fnpath)
     text = apply_substs(u, fnpath, text, log)
